@@ -382,6 +382,29 @@ def near_real_tree(gen, rnd):
     return t
 
 
+def near_sym_tree(gen, rnd):
+    """64-bit Dense (or Triangular-free Sum / Product of such) whose matrix is ALMOST symmetric / Hermitian relative to its size
+    (entries ~1e6, skew part 1..3): tolerance tests such as allclose(A, A.T) accept it although A.T != A."""
+    n = rnd.randint(2, 3)
+    cplx = rnd.random() < 0.5
+    dt = "complex128" if cplx else "float64"
+    a = [[[0, 0] for _ in range(n)] for _ in range(n)]
+    for i in range(n):
+        a[i][i] = [rnd.choice([-1, 1]) * 10 ** 6 * rnd.randint(1, 3), 0]
+        for j in range(i + 1, n):
+            re_, im_ = rnd.choice([-1, 1]) * 10 ** 6 * rnd.randint(1, 3), (rnd.choice([-1, 1]) * 10 ** 6 if cplx and rnd.random() < 0.5 else 0)
+            k_, l_ = rnd.choice([-3, -2, -1, 1, 2, 3]), (rnd.choice([-2, -1, 1, 2]) if cplx else 0)
+            a[i][j] = [re_ + k_, im_ + l_]
+            a[j][i] = [re_ - k_, -im_ + l_] if cplx and rnd.random() < 0.5 else [re_ - k_, im_ - l_]
+    t = dict(k="Dense", dt=dt, a=a)
+    w = rnd.random()
+    if w < 0.2:
+        t = dict(k="Sum", ms=[t, dict(k="Diag", dt="float64", d=[[rnd.randint(1, 3), 0] for _ in range(n)])])
+    elif w < 0.35:
+        t = dict(k="Prod", ms=[dict(k="Diag", dt="float64", d=[[rnd.randint(1, 2), 0] for _ in range(n)]), t])
+    return t
+
+
 def range_slice(idx):
     """index list -> python slice when it is an arithmetic progression, else None"""
     if len(idx) == 0:
